@@ -261,6 +261,21 @@ fn expected_meaning(stacks: &[Vec<LayerIn>]) -> Option<Vec<DI>> {
 }
 
 /// expected composite unravel (inner -> outer) over several pages
+/// max_visible_level by its meaning: the number of def levels of the layers below the first list layer (the levels
+/// whose entries still carry a value slot); None without a list.  Computed from the input stacks only.
+fn expected_mvl(stacks: &[Vec<LayerIn>]) -> Option<Option<u16>> {
+    let m = expected_meaning(stacks)?;
+    let mut sum = 0u16;
+    for d in &m {
+        match d {
+            DI::AllValidList | DI::NullableList | DI::EmptyableList | DI::NullableAndEmptyableList => return Some(Some(sum)),
+            DI::NullableItem => sum += 1,
+            DI::AllValidItem => {}
+        }
+    }
+    Some(None)
+}
+
 /// the layer stack a page of several builders stands for: layer-wise concatenation of the inputs
 /// (a missing validity buffer next to a present one counts as all-valid)
 fn combine_inputs(stacks: &[Vec<LayerIn>]) -> Option<Vec<LayerIn>> {
@@ -899,6 +914,16 @@ impl C27 {
                                         fail(res, "level_lengths", format!("{} rep levels but {} def levels", r.len(), d.len()));
                                     }
                                 }
+                                // oracle: max_visible_level counts exactly the def levels below the first list
+                                if let Some(exp) = expected_mvl(inp) {
+                                    if !zero && exp != page.mvl {
+                                        fail(
+                                            res,
+                                            "max_visible_level",
+                                            format!("max_visible_level {:?}, but {:?} def levels lie below the first list", page.mvl, exp),
+                                        );
+                                    }
+                                }
                             }
                         }
                         for m in &page.meaning {
@@ -1237,7 +1262,9 @@ impl C27 {
                             fail(res, "slicer_concat", "the slices do not concatenate to the level buffer".into());
                         }
                         // oracle: each slice_next(k) covers exactly k visible items and stops right after the k-th
-                        if let (Some(def), Some(mvl)) = (&p.def, p.mvl) {
+                        // (visibility judged by the level's meaning in the layer stack, not by the page's own field)
+                        let mvl_indep = p.input.as_ref().and_then(|i| expected_mvl(i)).unwrap_or(p.mvl);
+                        if let (Some(def), Some(mvl)) = (&p.def, mvl_indep) {
                             let mut pos = 0usize;
                             for (i, k) in ks.iter().enumerate() {
                                 let seg = &def[pos..pos + lens[i] as usize];
@@ -1255,6 +1282,14 @@ impl C27 {
                     Some(None) => "none".into(),
                     None => {
                         res.tags.push("slice:panic".into());
+                        // asking for no more values than the page has items must not run out of levels
+                        if let Some(inp) = &p.input {
+                            let items: u64 = inp.iter().map(|s| num_items(s)).sum();
+                            let aligned = combine_inputs(inp).map(|c| normal_form(&c).is_some()).unwrap_or(false);
+                            if aligned && page_rows(p) != Some(0) && ks.iter().sum::<u64>() <= items && levels.is_some() {
+                                fail(res, "slicer_panic", format!("slice_next panicked although only {} of {} values were requested", ks.iter().sum::<u64>(), items));
+                            }
+                        }
                         "panic".into()
                     }
                 }
@@ -1522,6 +1557,48 @@ impl Prop for C27 {
                 return lines;
             }
         }
+        if idx % 300 == 7 {
+            // a page of several mini-block chunks (> 4096 items): list<struct?<int?>> with null structs inside the lists
+            // (sometimes under a nullable outer struct), through the real writer / reader
+            let rows = 1200 + rng.usize(300);
+            let outer_struct = rng.chance(1, 3);
+            let list_nulls = rng.chance(1, 2);
+            let mut stack = vec![];
+            let outer_bits: Vec<bool> = (0..rows).map(|_| !rng.chance(1, 20)).collect();
+            if outer_struct {
+                stack.push(LayerIn::Val(Some(outer_bits.clone()), rows));
+            }
+            let lbits: Option<Vec<bool>> = if list_nulls || outer_struct {
+                Some((0..rows).map(|i| (!outer_struct || outer_bits[i]) && !rng.chance(1, 15)).collect())
+            } else {
+                None
+            };
+            let mut lens = vec![];
+            let mut total = 0usize;
+            for i in 0..rows {
+                let valid = lbits.as_ref().map(|b| b[i]).unwrap_or(true);
+                let len = if !valid { 0 } else if rng.chance(1, 12) { 0 } else { 3 + rng.below(6) };
+                total += len as usize;
+                lens.push(len);
+            }
+            stack.push(LayerIn::Off { base: 0, lens, v: lbits });
+            // null structs from the very first chunk on
+            let sbits: Vec<bool> = (0..total).map(|i| !(i % 7 == 3 || rng.chance(1, 10))).collect();
+            stack.push(LayerIn::Val(Some(sbits), total));
+            let leaf: Option<Vec<bool>> = if rng.chance(1, 2) { Some((0..total).map(|_| !rng.chance(1, 8)).collect()) } else { None };
+            stack.push(LayerIn::Val(leaf, total));
+            lines.extend(stack_lines(&stack));
+            lines.push("ser".into());
+            lines.push(format!("unr {} {}", shape_of(&stack), num_items(&stack)));
+            let t = total as u64;
+            let k1 = t.min(1000);
+            let k2 = (t - k1).min(3096);
+            let k3 = (t - k1 - k2).min(500);
+            lines.push(format!("slice d {}", show_nat_list([k1, k2, k3])));
+            lines.push("file m".into());
+            lines.push("file z".into());
+            return lines;
+        }
         let kind = rng.below(100);
         if kind < 12 {
             // raw control words over every width
@@ -1642,7 +1719,9 @@ impl Prop for C27 {
          than the quota; then seeded random cases: stacks of depth <= 4 and <= 7 rows (null rate 0-100 %, empty rate 0-60 %, sliced \
          offsets, garbage behind null lists, lists under null structs pushed down to empty), 25 % composite (2-3 pages of the same \
          shape), multi-builder pages, 10 % with fixed-size-list layers, 12 % raw control words over all widths 0..15 x 0..15, 8 % \
-         malformed (a layer whose length does not line up). Each case serialises (levels, def_meaning, max_visible_level are compared), \
+         malformed (a layer whose length does not line up); every 300th case is a page of several mini-block chunks (1200-1500 rows, \
+         > 4096 items) of list<struct?<int?>> with null structs inside the lists from the first chunk on, serialised, unravelled, \
+         sliced at chunk-sized steps and written / read through a 2.1 file. Each case serialises (levels, def_meaning, max_visible_level are compared), \
          unravels every layer (offsets and validity are compared), packs and parses control words, slices, and (every 4th enumerated case, half of the random single-page cases) writes the Arrow array the stack stands for through lance_file's 2.1 FileWriter (mini-block or full-zip, optionally one page per batch) and reads it back with FileReader. A case is non-trivial if \
          it reaches an unravel or a control-word op."
             .into()
